@@ -1,7 +1,7 @@
 SPECIFICATION Spec
 CONSTANTS
-  Configs <- ThoroughConfigs
-  JudgeBy = "last"
+  Configs <- HistoryConfigs
+  JudgeBy = "next"
   CheckVHash = TRUE
 VIEW view
 INVARIANTS TypeOK CodeEqualsDecl AcceptImpliesLinked AcceptImpliesQuorumOfDistinctGoodSigners AcceptImpliesEverySlotVerifies VerifyCommitSound VerifyCommitEverySlotVerifies HeightOneEmptyCommit TamperAnyFieldRejected
